@@ -517,6 +517,7 @@ func (c *FnCtx) loopHead(fr *frame, li *loopInfo, st *State, entryPhi map[*ssa.P
 				continue
 			}
 			t := c.evalClause(fr, st, cl, li)
+			c.canaryNext = cl.Canary
 			o := c.oblige(st, "inv-entry", where+" invariant on entry", t, loopPos(li), cl.Text)
 			if o != nil && cl.Canary {
 				o.Canary = true
@@ -670,6 +671,7 @@ func (c *FnCtx) backEdge(fr *frame, li *loopInfo, from *ssa.BasicBlock, st *Stat
 			continue
 		}
 		t := c.evalClause(fr, st, cl, li)
+		c.canaryNext = cl.Canary
 		o := c.oblige(st, "inv-step", where+" invariant preserved", t, loopPos(li), cl.Text)
 		if o != nil && cl.Canary {
 			o.Canary = true
